@@ -149,6 +149,7 @@ def worker(w, cfg):
     def conc(m, kind=kind):
         return {"kind": kind, "data": [C.model_value(m, x) if v else None for x, v in zip(xs, valid)],
                 "nodata": C.model_value(m, nd)}
+    conc_ob = None
     if kind == "int1d":
         fn = it.get_function("hdc.algo.ops.autocorr", "autocorr_1d")
         data = it.new_array(st, (T,), "int16", cells=[x if v else nd for x, v in zip(xs, valid)])
@@ -156,9 +157,11 @@ def worker(w, cfg):
         res = it.call_function(st, fn, [data, nd])
         w.res.encoded.update(it.encoded)
         check_result(w, "autocorr_1d[int]", res, xs, valid, assume, conc, wb)
-    elif kind == "float1d":
+    elif kind in ("float1d", "float1d32"):
         fn = it.get_function("hdc.algo.ops.autocorr", "autocorr_1d")
-        data = it.new_array(st, (T,), "float64", cells=[z3.ToReal(x) if v else V.NAN for x, v in zip(xs, valid)])
+        if kind == "float1d32":
+            it.narrow = {}
+        data = it.new_array(st, (T,), "float64" if kind == "float1d" else "float32", cells=[z3.ToReal(x) if v else V.NAN for x, v in zip(xs, valid)])
         data.readonly = True
         res = it.call_function(st, fn, [data])
         w.res.encoded.update(it.encoded)
@@ -179,6 +182,7 @@ def worker(w, cfg):
             px0 = [z3.ToReal(x) if v else V.NAN for x, v in zip(xs, valid)]
             px1 = [z3.ToReal(y) for y in ys]
             dt = "float32"
+            it.narrow = {}
         if kind == "yxt":
             fn = it.get_function("hdc.algo.ops.autocorr", "autocorr")
             arr = it.new_array(st, (1, 2, T), dt, cells=px0 + px1)
@@ -198,9 +202,18 @@ def worker(w, cfg):
         def conc2(m, kind=kind):
             return {"kind": kind, "data": [C.model_value(m, x) if v else None for x, v in zip(xs, valid)],
                     "data2": [C.model_value(m, y) for y in ys], "nodata": C.model_value(m, nd) if use_nd else None}
+        conc_ob = conc2
         check_result(w, f"{fn.name}[px0]", cells[0], xs, valid, assume2, conc2, wb2)
         check_result(w, f"{fn.name}[px1]", cells[1], ys, allv, assume2, conc2, wb2)
+    lim = 1 << 24
+    conc = conc_ob or conc
     for ob in it.obligations:
+        if ob.kind == "narrow-arithmetic":
+            # single-precision inputs are integers a float32 holds exactly; the claim is that the operation loses nothing
+            rng = [z3.And(v >= -lim, v <= lim) for v in xs + (ys if kind in ("yxt", "tyx") else [])]
+            w.discharge(f"{kind}.{ob.kind}@{ob.where}", assume + rng, ob.claim, guard=ob.guard, concretize=conc,
+                        first_timeout_ms=5000)
+            continue
         w.discharge(f"{kind}.{ob.kind}@{ob.where}", assume, ob.claim, guard=ob.guard, concretize=conc, witness_bounds=wb,
                     first_timeout_ms=2000)
     w.vacuity(f"{kind}.assumptions", assume)
@@ -219,6 +232,8 @@ def configs(tier):
             cf.append({"kind": "int1d", "valid": p})
             if T <= (5 if tier == "quick" else 7):
                 cf.append({"kind": "float1d", "valid": p})
+                if T <= 5:
+                    cf.append({"kind": "float1d32", "valid": p})
     # structured longer patterns: contiguous outages, leading / trailing gaps
     for T in ((9, 10) if tier == "quick" else (9, 10, 11, 12)):
         seen = set()
@@ -266,6 +281,23 @@ def validate(chk, seed):
         chk.validate("autocorr_1d[float]", mine, real, tol=1e-9)
 
 
+def narrow_selftest():
+    """Reachability twin of the single-precision tracking: a product of two values read from a float32 array must raise a
+    narrow-arithmetic obligation, and none once one operand went through float64()."""
+    it = C.new_interp(policy="poly")
+    it.narrow = {}
+    st = State()
+    a = it.new_array(st, (2,), "float32", cells=[z3.ToReal(z3.Int("p")), z3.ToReal(z3.Int("q"))])
+    x, y = it.read_cell(st, a, a.pos((0,))), it.read_cell(st, a, a.pos((1,)))
+    it.scalar_binop(st, "Mult", x, y)
+    n1 = sum(1 for ob in it.obligations if ob.kind == "narrow-arithmetic")
+    from pysym import lib as L
+    it.scalar_binop(st, "Mult", L.cast_scalar(it, st, L.DTYPES["float64"], x), y)
+    n2 = sum(1 for ob in it.obligations if ob.kind == "narrow-arithmetic")
+    if (n1, n2) != (1, 1):
+        raise Unsupported(f"single-precision tracking self-test failed: {n1}, {n2}")
+
+
 def replay_candidate(chk, c):
     r = chk.replayer.call("c15_autocorr", **c["input"])
     return bool(r["violates"]), r
@@ -275,12 +307,15 @@ def main(tier, seed, nproc=None):
     chk = C.Check(PID, tier, seed)
     chk.assumptions = ["values are integers (unbounded) - also on the float/NaN path, where they are fed as reals",
                        "sqrt / x**-0.5 kept symbolic (Ratio); floats are exact reals; float32 rounding of the output outside",
+                       "float32 inputs: values read from a float32 array are tracked as single precision until float64(); an "
+                       "Add/Sub/Mult between two such values is an obligation (result exactly representable, inputs |v| <= 2**24 integers)",
                        "the 1e-8 variance threshold is only checked through its branch logic on integer data"]
     chk.bounds = {"T": f"3..{6 if tier == 'quick' else 8} every gap pattern; 9..{10 if tier == 'quick' else 12} contiguous outages",
                   "entry points": "autocorr_1d (int/nodata and float/NaN), autocorr (y,x,t), autocorr_tyx; 2 pixels"}
     chk.outside = ["|r| <= 1 as an inequality (corollary of the identity)", "float32 output rounding", "series longer than the bound",
                    "the xarray accessor's layout dispatch"]
     validate(chk, seed)
+    narrow_selftest()
     chk.run(worker, configs(tier), nproc)
     chk.confirm(lambda c: replay_candidate(chk, c))
     return chk.finish(
